@@ -53,6 +53,7 @@ type vOutcome struct {
 	Expected []string
 	ActErr   bool
 	Calls    []vCall
+	errObj   *parseError.Error
 	Scans    int
 	Panic    string
 }
@@ -179,7 +180,8 @@ func realParse(p *Parser, toks []*token.Token, eof *token.Token, ctx interface{}
 		out.Panic = "error is not *errors.Error"
 		return
 	}
-	out.ErrTok, out.Expected, out.ActErr = e.ErrorToken, e.ExpectedTokens, e.Err != nil
+	out.ErrTok, out.Expected, out.ActErr = e.ErrorToken, append([]string(nil), e.ExpectedTokens...), e.Err != nil
+	out.errObj = e
 	if res != nil {
 		out.Panic = "non-nil result together with an error"
 	}
@@ -285,7 +287,17 @@ func runCase(c vCase, what string) string {
 	p := NewParser()
 	ctx := &struct{ n int }{7}
 	for _, s := range c.Seqs[:len(c.Seqs)-1] {
-		realParse(p, mkToks(s), &token.Token{Type: token.EOF}, ctx, c.HistFail-1) // history (C16)
+		h := realParse(p, mkToks(s), &token.Token{Type: token.EOF}, ctx, c.HistFail-1) // history (C16)
+		if h.errObj != nil {
+			// the returned error belongs to the caller: an application may sort, rewrite or truncate its lists
+			// (errors.DescribeExpected rewrites the last element in place); a later Parse must not see that
+			for i := range h.errObj.ExpectedTokens {
+				h.errObj.ExpectedTokens[i] = "scribbled-by-the-application"
+			}
+			for i := range h.errObj.ErrorSymbols {
+				h.errObj.ErrorSymbols[i] = nil
+			}
+		}
 	}
 	last := c.Seqs[len(c.Seqs)-1]
 	toks, eof := mkToks(last), &token.Token{Type: token.EOF}
